@@ -58,6 +58,13 @@ PLAN = {
         "assumptions": FW_ASSUMPTIONS + ["'hit by an exact-name lookup' is read as a lookup without CanBePrefix"],
     },
 }
+PLAN["C20"] = {
+    "parts": [{"engine": "enginesim", "quick": 60000, "thorough": 6000000}],
+    "nontrivial": ">=2 Interests were pending simultaneously and >=2 kinds of result (Data, Nack, timeout) occurred",
+    "fault_note": "the scenario decides every interleaving of Express, Data/Nack arrival, 'fire the k-th due timer' and clock advance; network faults = Data that never comes (timeout), late Data after the deadline, duplicated Data, Nacks for names with and without a pending Interest; the face recycles its receive buffer after each callback",
+    "components": {"real": ["std/engine/basic Engine (Express, onPacket, onData, onNack, timeout closures, handlers, Reply)", "std/engine/basic NameTrie", "std/ndn/spec_2022 codec"], "stub": ["face (SimFace implementing std/engine/face.Face)", "timer (SimTimer implementing ndn.Timer: event heap, scenario-chosen firing order)"]},
+    "assumptions": ["Express is not called re-entrantly from inside a result callback (the engine holds its PIT lock there)", "a Nack is allowed, not required, to resolve the Interests of its name"],
+}
 
 NOT_APPLICABLE = [
     {"property_id": "C03", "reason": "encode->decode round trip is a pure function of the packet value and a byte segmentation: no schedule, clock, fault or shared state for a simulator to own"},
@@ -67,6 +74,7 @@ NOT_APPLICABLE = [
 ]
 
 ENGINES = [
+    {"name": "enginesim", "path": "sim/enginesim", "serves_properties": ["C20"], "kind_free_text": "real application engine on a simulated face and a simulated timer (event heap); scenario-chosen interleaving of arrivals and timer firings"},
     {"name": "tablesim", "path": "sim/tablesim", "serves_properties": ["C05", "C06", "C08"], "kind_free_text": "operation histories (with face teardown injected) against the real FIBs and RIB; reference models; shrinking; replay"},
     {"name": "fwsim", "path": "sim/fwsim", "serves_properties": ["C01", "C02", "C07", "C08", "C09"], "kind_free_text": "one real forwarding thread in a synctest bubble (fake clock, quiescence stepping), simulated faces and scripted peers, reference PIT/CS/FIB model"},
 ]
